@@ -148,7 +148,15 @@ func (env *ExecEnv) expand(word ast.Word, mode ExpMode) (fields []*field, err er
 				return
 			}
 		case *ast.ArithExp:
-			word, err := env.expand(w.Expr, Arith)
+			// keep the tokens of the expression apart
+			var x ast.Word
+			for i, w1 := range w.Expr {
+				if pos := w1.Pos(); i > 0 && !pos.IsZero() && w.Expr[i-1].End() != pos {
+					x = append(x, &ast.Lit{Value: " "})
+				}
+				x = append(x, w1)
+			}
+			word, err := env.expand(x, Arith)
 			if err != nil {
 				return nil, err
 			}
